@@ -131,7 +131,11 @@ PROPS["C19"] = {
     "level": "exploration",
     "rule": ("scaling: (family, depth, width, operation) with family in ladder(d,w) [w^d paths], dense DAG(n) [2^(n-2) paths], irregular layered DAG (4-20 layers of width 1-4, edge density 30/60/100 %, skip edges, derived from a generated 32-bit value; paths counted exactly), chain; operation in {select-for-build, descendants, ancestors} decided by deterministic work counters "
              "(Select() calls <= 4(V+E); traversal result length <= V) and {BuildGraph with ordered overlapping writers, critical path, Walk with failing root, Walk all-success, FindCycle on the acyclic graph and with one cycle closing over the whole depth (the reported cycle must be a closed walk along edges), GetSelectedSubgraph} decided by process CPU time and a 90 s watchdog "
-             "(> 2 s and > 50x the chain with the same node count; a correct run is < 10 ms). Non-trivial = non-chain family with >= 4096 dependency paths; distinct by full case."),
+             "(> 2 s and > 50x the chain with the same node count; a correct run is < 10 ms). "
+             "binary: the real binary on a ladder workspace (width 2-3, depth up to 48/30, i.e. up to 2^48 paths; a failing or succeeding root package, a bin tool and two test targets on top): "
+             "deps -t / rdeps -t unfiltered and with --target-type=test|bin_output, list, owners, a partial build of only the failing root (the ladder above it is unselected), a full keep-going build with the failing root, a successful build of the top; "
+             "each must finish within 30 s with the expected exit status and print exactly the expected labels, each once. "
+             "Non-trivial = non-chain family with >= 4096 dependency paths (binary: >= 1e9); distinct by full case."),
     "assumptions": [
         "nothing is proved about complexity; the check separates path enumeration from node/edge traversal on families where they differ by >= 3 orders of magnitude",
         "CPU time (getrusage) rather than wall-clock is used for the timed operations; path counts are capped at 2^24 so that an exponential implementation shows as seconds of CPU, not as memory exhaustion",
@@ -139,6 +143,9 @@ PROPS["C19"] = {
     "nt_floor": 0.3,
     "parallel": 4,
     "parts": [
+        {"name": "binary", "pkg": "c19", "test": "TestBinary", "binary": True,
+         "quick": {"shards": 8, "checks": 40, "cap": 900, "shrinktime": "60s"},
+         "thorough": {"shards": 16, "checks": 2000, "cap": 7200, "shrinktime": "120s"}},
         {"name": "scaling", "pkg": "c19", "test": "TestScaling",
          "quick": {"shards": 4, "checks": 400, "cap": 900},
          "thorough": {"shards": 8, "checks": 40000, "cap": 7200}},
@@ -204,9 +211,11 @@ PROPS["C04"] = {
     "rule": ("bubble: C03's generator plus failing subsets (10% per node), fail-fast on/off, optional external cancel at a generated virtual time, mostly-zero latencies, 5% of cases with up to 4000 nodes; Walk must return (a hang is a synctest deadlock report), "
              "completions only for selected nodes, and in keep-going mode without cancel every selected node is succeeded, failed or downstream of a failure. race: keep-going failure patterns on the real scheduler under -race (up to 3000 nodes), the returned completion map is iterated immediately like RunBuild does; race-cancel: fail-fast and external cancel under -race with the walker alone (tasks behind a plain semaphore instead of grog's pool, whose shutdown closes a channel under concurrent sends on purpose). stress: all patterns incl. fail-fast and cancel on the real scheduler without the race detector. "
              "restore-faults: outputs (flat directory, generated trees, file outputs) cached through the real registry; for EVERY cache blob x {deleted, truncated, emptied}, up to 40 pairs of deletions and 'all deleted', LoadOutputs under a 30 s watchdog must return. "
+             "large: real-binary builds of 60-600 trivial targets (independent, one chain, layers of width 2-50 with two dependencies each), 1-16 workers, optionally one failing target in keep-going or fail-fast mode, optionally load_outputs=minimal; a cold and a warm build (products removed in between), each under a 120 s watchdog; "
+             "the build must exit, the exit status must reflect the failure, and in keep-going mode every target that does not depend on the failing one must have its output. "
              "timeouts: histories through the real binary (<=6 targets, 70% declare an 8 s timeout) whose steps make targets sleep 40 s, fail or kill their own shell, in keep-going and fail-fast builds of everything or of one label; every build must exit on its own within 120 s, "
              "non-zero exactly when a selected target could not be resolved, and the follow-up build after the switches are cleared must run what was not completed. "
-             "Non-trivial = bubble/race: a selected failure with a selected dependant, or a cancel, or >=1000 zero-latency nodes; restore-faults: >=2 blobs; timeouts: a target that exceeds its timeout or kills its shell; distinct by full case."),
+             "Non-trivial = bubble/race: a selected failure with a selected dependant, or a cancel, or >=1000 zero-latency nodes; restore-faults: >=2 blobs; timeouts: a target that exceeds its timeout or kills its shell; large: at least 100 targets; distinct by full case."),
     "assumptions": [
         "goroutines left blocked after Walk has returned are not violations (the process exits)",
         "the only wall-clock oracles are 30 s (real-scheduler walk) and 30 s (restore) watchdogs on operations that take milliseconds",
@@ -229,6 +238,9 @@ PROPS["C04"] = {
         {"name": "restore-faults", "pkg": "c04", "test": "TestRestoreFaults",
          "quick": {"shards": 4, "checks": 60, "cap": 900},
          "thorough": {"shards": 8, "checks": 1500, "cap": 7200}},
+        {"name": "large", "pkg": "c04", "test": "TestLarge", "binary": True,
+         "quick": {"shards": 8, "checks": 16, "cap": 1200, "shrinktime": "120s"},
+         "thorough": {"shards": 16, "checks": 480, "cap": 14400, "shrinktime": "300s"}},
         {"name": "timeouts", "pkg": "c04", "test": "TestTimeouts", "binary": True,
          "quick": {"shards": 16, "checks": 32, "cap": 1200, "shrinktime": "90s"},
          "thorough": {"shards": 32, "checks": 800, "cap": 14400, "shrinktime": "300s"}},
